@@ -82,3 +82,43 @@ func VH_C05_SCTE35Body() {
 	}
 	vrt.Reach("end")
 }
+
+func c05desc() int {
+	if vrt.Tier() == 0 {
+		return 20
+	}
+	return 30
+}
+
+// one segmentation descriptor with arbitrary body bytes behind a well-formed section and
+// descriptor-loop frame (lengths consistent), so that the descriptor parser's inner length
+// arithmetic (component count, UPID and MID lengths, sub-segment bytes) is reached with every
+// combination of its length fields
+func VH_C05_SegDesc() {
+	vrt.SetUnwind(300, true)
+	n := vrt.Choose("descLen", 0, c05desc())
+	body := make([]byte, n)
+	vrt.Bytes("desc", body)
+	b := []byte{0, 0xFC, 0x30, byte(11 + 2 + 2 + n + 4), 0, vrt.Byte("enc") & 0x7F, 0, 0, 0, 0, 0, 0xFF, 0xF0, 0, 0}
+	b = append(b, byte((n+2)>>8), byte(n+2), 0x02, byte(n))
+	b = append(b, body...)
+	crc := make([]byte, 4)
+	vrt.Bytes("crc", crc)
+	b = append(b, crc...)
+	keep := append([]byte{}, b...)
+	s, err := NewSCTE35(b)
+	if err == nil && s != nil {
+		for _, d := range s.Descriptors() {
+			_ = d.UPID()
+			_ = d.MID()
+			_ = d.Components()
+			_, _ = d.StreamSwitchSignalId()
+			_ = d.Data()
+		}
+		_ = s.UpdateData()
+	}
+	for i := range b {
+		vrt.Assert(b[i] == keep[i], "the parser never modifies its input")
+	}
+	vrt.Reach("end")
+}
